@@ -21,18 +21,23 @@ package datatypes
 // getModelOperations(cseq): exactly the buffered operations numbered cseq and above, in order
 //@ func (*WiredDatatype).getModelOperations
 //@   mode wrap
-//@   props C05 C07
+//@   props C05 C07 C09
 //@   requires bufWF(its) && cseq < 9223372036854775808 && (len(its.localBuffer) > 0 ==> its.localBuffer[0].ID.Seq < 9223372036854775808)
 //@   ensures[suffix-from-cseq] len(its.localBuffer) > 0 && cseq >= its.localBuffer[0].ID.Seq && cseq - its.localBuffer[0].ID.Seq < len(its.localBuffer) ==> len(result) == len(its.localBuffer) - (cseq - its.localBuffer[0].ID.Seq) && (forall j int :: 0 <= j && j < len(result) ==> result[j] == its.localBuffer[j + (cseq - its.localBuffer[0].ID.Seq)])
 //@   ensures[nothing-newer]    len(its.localBuffer) == 0 || cseq < its.localBuffer[0].ID.Seq || cseq - its.localBuffer[0].ID.Seq >= len(its.localBuffer) ==> len(result) == 0
 //@   ensures[only-unacked]     forall j int :: 0 <= j && j < len(result) ==> result[j] != nil && result[j].ID != nil && result[j].ID.Seq >= cseq
 //@   modifies nothing
 
+//@ pred cpInRange(cur *model.CheckPoint, rep *model.CheckPoint) = cur.Sseq < 4611686018427387904 && cur.Cseq < 4611686018427387904 && rep.Sseq < 4611686018427387904 && rep.Cseq < 4611686018427387904
+//@ pred pulledOf(cur *model.CheckPoint, rep *model.CheckPoint) = (rep.Sseq - cur.Sseq) - (rep.Cseq - cur.Cseq)
+// calculatePullingOperations: the number of foreign operations a reply carries, as a MATHEMATICAL (signed) difference
+// of the two checkpoints — negative for a stale reply. Stated over the integers, for checkpoints below 2^62 (no log is
+// that long): a result type or an arithmetic that cannot represent the negative case fails [exact-signed-difference].
 //@ func (*WiredDatatype).calculatePullingOperations
-//@   mode bv
+//@   mode wrap
 //@   props C05 C07
 //@   requires its.checkPoint != nil && newCheckPoint != nil
-//@   ensures result == int((newCheckPoint.Sseq - its.checkPoint.Sseq) - (newCheckPoint.Cseq - its.checkPoint.Cseq))
+//@   ensures[exact-signed-difference] cpInRange(its.checkPoint, newCheckPoint) ==> result == pulledOf(its.checkPoint, newCheckPoint)
 //@   modifies nothing
 
 //@ func (*WiredDatatype).syncCheckPoint
@@ -89,9 +94,9 @@ package datatypes
 //@   replay-input new_cseq = ppp.CheckPoint.Cseq
 //@   replay-input n_ops = len(ppp.Operations)
 //@   replay-bound len(ppp.Operations) <= 4 && its.checkPoint.Sseq <= 100 && its.checkPoint.Cseq <= 100 && ppp.CheckPoint.Sseq <= 100 && ppp.CheckPoint.Cseq <= 100
-//@   ensures[skip-from-front] len(old(ppp.Operations)) > its.calculatePullingOperations(ppp.CheckPoint) && its.calculatePullingOperations(ppp.CheckPoint) >= 0 ==> len(ppp.Operations) == its.calculatePullingOperations(ppp.CheckPoint)
-//@   ensures[stale-drops-all] its.calculatePullingOperations(ppp.CheckPoint) < 0 ==> len(ppp.Operations) == 0
-//@   ensures[keeps-all]       len(old(ppp.Operations)) <= its.calculatePullingOperations(ppp.CheckPoint) ==> len(ppp.Operations) == len(old(ppp.Operations))
+//@   ensures[skip-from-front] cpInRange(its.checkPoint, ppp.CheckPoint) && len(old(ppp.Operations)) > pulledOf(its.checkPoint, ppp.CheckPoint) && pulledOf(its.checkPoint, ppp.CheckPoint) >= 0 ==> len(ppp.Operations) == pulledOf(its.checkPoint, ppp.CheckPoint)
+//@   ensures[stale-drops-all] cpInRange(its.checkPoint, ppp.CheckPoint) && pulledOf(its.checkPoint, ppp.CheckPoint) < 0 ==> len(ppp.Operations) == 0
+//@   ensures[keeps-all]       cpInRange(its.checkPoint, ppp.CheckPoint) && len(old(ppp.Operations)) <= pulledOf(its.checkPoint, ppp.CheckPoint) ==> len(ppp.Operations) == len(old(ppp.Operations))
 //@   ensures[is-a-suffix]     suffixOf(ppp.Operations, old(ppp.Operations))
 //@   ensures[checkpoint-untouched] its.checkPoint.Sseq == old(its.checkPoint.Sseq) && its.checkPoint.Cseq == old(its.checkPoint.Cseq)
 //@   ensures[only-this-pack]  forall q *model.PushPullPack :: q != ppp ==> len(q.Operations) == old(len(q.Operations))
@@ -108,13 +113,18 @@ package datatypes
 //@   ensures[state-untouched] its.opID == old(its.opID) && its.opID.Seq == old(its.opID.Seq)
 //@   modifies G:lastMarshaled
 
+// ghost: the operation count (opID.Seq) recorded in the rollback point when it was last taken. A rollback restores
+// the identifiers from the rollback point, so a point taken before the identifiers were reset brings stale numbers back.
+//@ ghost field TransactionDatatype.$rbSeq mathint
 //@ func (*TransactionDatatype).ResetTransaction
 //@   mode math
-//@   props C09 C13
+//@   props C09 C13 C15
+//@   ghost-exit its.$rbSeq := its.BaseDatatype.opID.Seq
 //@   requires its.BaseDatatype != nil && its.BaseDatatype.Datatype != nil && its.BaseDatatype.ctx != nil && its.BaseDatatype.opID != nil
 //@   ensures[ops-cleared] result == nil ==> len(its.rollbackOps) == 0
 //@   ensures[error-changes-nothing] result != nil ==> len(its.rollbackOps) == old(len(its.rollbackOps))
-//@   modifies TransactionDatatype.rollbackSnapshot, TransactionDatatype.rollbackMeta, TransactionDatatype.rollbackOps, G:lastMarshaled
+//@   ensures[rollback-point-carries-the-current-count] its.$rbSeq == its.BaseDatatype.opID.Seq && its.BaseDatatype.opID.Seq == old(its.BaseDatatype.opID.Seq)
+//@   modifies TransactionDatatype.rollbackSnapshot, TransactionDatatype.rollbackMeta, TransactionDatatype.rollbackOps, TransactionDatatype.$rbSeq, G:lastMarshaled
 
 // checkOptionAndError: what a reply does before its operations are applied.
 //  - an error reply is turned into a returned error, never a panic, and leaves checkpoint,
@@ -124,7 +134,7 @@ package datatypes
 //  - any other reply changes nothing.
 //@ func (*WiredDatatype).checkOptionAndError
 //@   mode wrap
-//@   props C05 C08 C13 C16
+//@   props C05 C08 C13 C16 C15
 //@   requires wiredWF(its) && its.opID != nil && its.BaseDatatype.Datatype != nil && its.BaseDatatype.ctx != nil
 //@   requires ppp != nil && ppp.CheckPoint != nil && ppp.CheckPoint != its.checkPoint && opsWF(ppp.Operations)
 //@   requires[server-reply-shape] (ppp.GetPushPullPackOption().HasErrorBit() || ppp.GetPushPullPackOption().HasSubscribeBit()) ==> len(ppp.Operations) >= 1
@@ -134,7 +144,8 @@ package datatypes
 //@   ensures[plain-reply-untouched] !ppp.GetPushPullPackOption().HasErrorBit() && !ppp.GetPushPullPackOption().HasSubscribeBit() ==> result == nil && its.checkPoint.Sseq == old(its.checkPoint.Sseq) && its.checkPoint.Cseq == old(its.checkPoint.Cseq) && len(its.localBuffer) == old(len(its.localBuffer)) && its.opID.Seq == old(its.opID.Seq)
 //@   ensures[subscribe-checkpoint]  result == nil && ppp.GetPushPullPackOption().HasSubscribeBit() ==> its.checkPoint.Cseq == ppp.CheckPoint.Cseq && math(its.checkPoint.Sseq) + len(ppp.Operations) == math(ppp.CheckPoint.Sseq) + (ppp.CheckPoint.Sseq < len(ppp.Operations) ? 18446744073709551616 : 0)
 //@   ensures[subscribe-resets]      result == nil && ppp.GetPushPullPackOption().HasSubscribeBit() ==> len(its.localBuffer) == 0 && its.opID.Seq == 0
-//@   modifies WiredDatatype.localBuffer, model.OperationID.Seq, model.CheckPoint.Sseq, model.CheckPoint.Cseq, SnapshotDatatype.Snapshot, TransactionDatatype.rollbackSnapshot, TransactionDatatype.rollbackMeta, TransactionDatatype.rollbackOps, G:lastMarshaled
+//@   ensures[subscribe-rollback-point-is-the-reset-state] result == nil && ppp.GetPushPullPackOption().HasSubscribeBit() ==> its.TransactionDatatype.$rbSeq == 0
+//@   modifies WiredDatatype.localBuffer, model.OperationID.Seq, model.CheckPoint.Sseq, model.CheckPoint.Cseq, SnapshotDatatype.Snapshot, TransactionDatatype.rollbackSnapshot, TransactionDatatype.rollbackMeta, TransactionDatatype.rollbackOps, TransactionDatatype.$rbSeq, G:lastMarshaled
 
 // ReceiveRemoteModelOperations cuts the received operations into units: a transaction
 // operation announces the length of its unit. Safety for ALL inputs: a truncated unit
